@@ -2,38 +2,85 @@
   lmdmodel — the line-protocol driver.  Reads the schema dump (argument 1) written by
   `lmdharness dump-schema` from the real `InitObjects`, then JSON lines on stdin:
 
-    {"op":"dataset","id":n,"dataset":{…}}
+    {"op":"dataset","id":n,"dataset":{…}}            importer-style dataset
+    {"op":"sync","id":n,"dataset":{…}}               raw backend replies, synchronised by Lmd.syncBackend
+    {"op":"world"| "clock" | "advance" | "init" | "tick" | "mutate" | "mode" | "state", …}   peer / backend model
     {"op":"query","id":n,"text":"GET …","optimize":true}
 
-  and prints one JSON line per query with the model's answer (the code as it is today, quirks on),
-  the specification's answer, and the model-vs-spec verdict with the listed quirks that explain a
-  difference.
+  and prints one JSON line per query / step with the model's answer (the code as it is today),
+  the specification's answer, and the model-vs-spec verdict.
 -/
 import Lmd.Render
 import Driver.Ops
+import Driver.World
 
 open Lean (Json)
 open Lmd Driver
 
-partial def loop (h : IO.FS.Stream) (out : IO.FS.Stream) (st : State) : IO Unit := do
+structure Full where
+  st : State
+  ws : Option WState := none
+  clock : Int := 0
+
+def worldOps : List String := ["world", "clock", "advance", "init", "tick", "mutate", "mode", "state"]
+
+/-- a client query touches the selected peers (`lastQuery`, spin-up from idle) before it is answered -/
+def touchPeers (f : Full) (j : Json) : Full :=
+  match f.ws with
+  | none => f
+  | some ws =>
+    match parseRequest f.st.schema { optimize := true, q := Quirks.current } (jStr j "text") with
+    | .error _ => f
+    | .ok req =>
+      match f.st.schema.table? req.table with
+      | none => f
+      | some t =>
+        if t.passthrough then f
+        else
+          let wanted := fun (id : String) => req.backends.isEmpty || req.backends.contains id
+          let touch := fun (e : PeerEntry) =>
+            if !wanted e.id then e
+            else if t.virt == .none then
+              let (p, b) := clientQuery ws.w ws.now e.p e.b
+              { e with p := p, b := b }
+            else { e with p := { e.p with lastQuery := ws.now } }
+          let ws' := { ws with peers := ws.peers.map touch }
+          { f with ws := some ws', st := { f.st with ds := ws'.dataset f.st.ds } }
+
+partial def loop (h : IO.FS.Stream) (out : IO.FS.Stream) (f : Full) : IO Unit := do
   let line ← h.getLine
   if line.isEmpty then return ()
   if line.trimAscii.toString.isEmpty then
-    loop h out st
+    loop h out f
   else
     match Json.parse line with
     | .error e =>
       out.putStrLn (Json.compress (Json.mkObj [("error", .str s!"json: {e}")]))
       out.flush
-      loop h out st
+      loop h out f
     | .ok j =>
-      let (st', res) := step st j
-      match res with
-      | some r =>
-        out.putStrLn (Json.compress r)
-        out.flush
-      | none => pure ()
-      loop h out st'
+      let op := jStr j "op"
+      if worldOps.contains op then
+        let (ws', clock', res) := worldStep f.st.schema f.ws f.clock j
+        let st' := match ws' with
+          | some ws => { f.st with ds := ws.dataset f.st.ds }
+          | none => f.st
+        match res with
+        | some r =>
+          out.putStrLn (Json.compress r)
+          out.flush
+        | none => pure ()
+        loop h out { st := st', ws := ws', clock := clock' }
+      else
+        let f := if op == "query" then touchPeers f j else f
+        let f := if op == "dataset" || op == "sync" then { f with ws := none } else f
+        let (st', res) := step f.st j
+        match res with
+        | some r =>
+          out.putStrLn (Json.compress r)
+          out.flush
+        | none => pure ()
+        loop h out { f with st := st' }
 
 def main (args : List String) : IO UInt32 := do
   match args with
@@ -47,7 +94,7 @@ def main (args : List String) : IO UInt32 := do
       let schema := parseSchema j
       let stdin ← IO.getStdin
       let stdout ← IO.getStdout
-      loop stdin stdout { schema := schema, ds := { backends := [] } }
+      loop stdin stdout { st := { schema := schema, ds := { backends := [] } } }
       return 0
   | _ =>
     IO.eprintln "usage: lmdmodel <schema.json>"
